@@ -340,6 +340,33 @@ theorem wrap_colour_firstfit_ascii (env : Env) (hcw : ∀ c, env.cw c ≤ c.utf8
   rw [C05.wrap_shortcut_unobservable_ascii env hcw mo o hb halg hsep] at h ⊢
   exact wrapGeneral_colour env mo hmo o hsp hii hsi paras hne hv ls h
 
+/-- **`wrap` itself, every algorithm, both separators**: relative to the external contracts of
+    `smawk` and `unicode_linebreak` for the paragraphs shorter than the width
+    (`C05.ShortcutContracts`, validated by the harness on every call), the byte-length shortcut is
+    unobservable on the coloured and on the visible text, so the statement holds for `wrap` -/
+-- @audit TW.C13.wrap_colour
+theorem wrap_colour (env : Env) (hcw : ∀ c, env.cw c ≤ c.utf8Size)
+    (mo : MinimaOracle Int) (hmo : MoShape mo) (o : Opts) (hsp : Builtin o.splitter)
+    (hii : ∀ c ∈ o.initialIndent, c ≠ ESC) (hsi : ∀ c ∈ o.subsequentIndent, c ≠ ESC)
+    (paras : List CPara) (hne : paras ≠ [])
+    (hv : ∀ p ∈ paras, ValidB p.1 p.2 ∧ Attached none p.1 p.2 ∧ LF ∉ colOf p.1 p.2 ∧ LF ∉ visOf p.1 ∧
+      (env.opps (visOf p.1)).Pairwise (· < ·) ∧ HyphenOk env o p.1 p.2)
+    (hcc : ∀ p ∈ paras, blen (colOf p.1 p.2) < o.width → C05.ShortcutContracts env mo o (colOf p.1 p.2))
+    (hcv : ∀ p ∈ paras, blen (visOf p.1) < o.width → C05.ShortcutContracts env mo o (visOf p.1))
+    (ls : List Text)
+    (h : wrap env mo o (joinWith o.lineEnding.str (paras.map fun p => colOf p.1 p.2)) = some ls) :
+    wrap env mo o (joinWith o.lineEnding.str (paras.map fun p => visOf p.1)) = some (ls.map stripAnsi) := by
+  have hb : Builtin o.splitter := hsp
+  rw [C05.wrap_shortcut_unobservable env hcw mo o hb _ (by
+    rw [C14.join_split o.lineEnding _ (by simpa using hne) (by
+      intro l hl; obtain ⟨p, hp, rfl⟩ := List.mem_map.mp hl; exact (hv p hp).2.2.1)]
+    intro q hq; obtain ⟨p, hp, rfl⟩ := List.mem_map.mp hq; exact hcc p hp)] at h
+  rw [C05.wrap_shortcut_unobservable env hcw mo o hb _ (by
+    rw [C14.join_split o.lineEnding _ (by simpa using hne) (by
+      intro l hl; obtain ⟨p, hp, rfl⟩ := List.mem_map.mp hl; exact (hv p hp).2.2.2.1)]
+    intro q hq; obtain ⟨p, hp, rfl⟩ := List.mem_map.mp hq; exact hcv p hp)]
+  exact wrapGeneral_colour env mo hmo o hsp hii hsi paras hne hv ls h
+
 /-! the hypotheses are satisfiable: a coloured sentence (a test, labelled as such) -/
 example :
     let bs : List Block := [("\x1b[1;31m".toList, 'a'), ([], 'b'), ("\x1b[0m".toList, ' '), ([], 'c')]
